@@ -367,6 +367,12 @@ def ref_suite(ctx, name, lines, res):
     for ln, rl, ml in zip(lines, real, model):
         c = json.loads(ln); r = json.loads(rl); m = json.loads(ml)
         res.stats['cases'] += 1; info['cases'] += 1
+        if ctx.prop == 'C12':
+            # C12 looks at one thing here: a look-up of a path that designates no node leaves the document as it was
+            if c.get('kind') == 'missing' and status_of(r) not in ('panic', 'abort', 'timeout') and norm(r.get('after')) != norm(c.get('tdoc')):
+                res.violations.append({'suite': name, 'mode': 'ref', 'case': c, 'real': r, 'model': m, 'why': 'a look-up (reference / reference_mut) of a path that designates no node changed the document'}); info['violations'] += 1
+            elif c.get('kind') == 'missing': res.nontrivial.add(chash([c['doc'], c['path']]))
+            continue
         j = judge_ref(ctx, c, r, m)
         res.stats['kind_' + str(c.get('kind'))] += 1
         if r.get('mut'): res.nontrivial.add(chash([c['doc'], c['path']])); info['found_and_written'] += 1
@@ -718,6 +724,7 @@ def run(ctx, round_no=0):
         eval_suite(ctx, 'witnesses+corpus', pre, res) if pre else None
         if first: eval_suite(ctx, 'small-scope', g('gen_small.py', p, seed, 6000 * S), res)
         eval_suite(ctx, 'random', g('gen_eval.py', seed, 12000 * S), res)
+        if first: eval_suite(ctx, 'size-sweep', g('gen_sizes.py', seed, 1025 if ctx.tier == 'quick' else 2049), res)
         if p == 'C02': generic_suite(ctx, 'member-order', g('gen_eval.py', seed + 77, 3000 * S), res, only_rev=True)
         if p == 'C03': eval_suite(ctx, 'paths-of-all-nodes', g('gen_paths.py', seed, 3000 * S), res)
         if p == 'C01': eval_suite(ctx, 'targeted-filters', g('gen_targeted.py', 'c10', seed, 1500 * S) + g('gen_targeted.py', 'c05', seed, 1500 * S) + g('gen_targeted.py', 'c14', seed, 1000 * S)
@@ -735,6 +742,7 @@ def run(ctx, round_no=0):
                    '; projection = kept nodes by address-derived location; non-trivial = distinct case with a non-empty real result'
         eval_suite(ctx, 'witnesses+corpus', pre, res) if pre else None
         eval_suite(ctx, 'targeted', g('gen_targeted.py', p.lower(), seed, n), res)
+        if p == 'C11' and first: eval_suite(ctx, 'size-sweep', g('gen_sizes.py', seed, 1025), res)
         if p == 'C10': regex_suite(ctx, 'regex-dialect', g('gen_regex.py', seed, 8000 * S), res)
     elif p in ('C06', 'C07'):
         res.rule = ('query strings: ABNF-derived sentences with random optional blanks, both quote styles, escapes, number formats; single-edit mutants; '
@@ -771,6 +779,9 @@ def run(ctx, round_no=0):
                     'sharing one Arc; plus the three entry points compared position by position on random cases')
         hist_suite(ctx, 'histories', g('gen_hist.py', seed, 60 * S), res)
         eval_suite(ctx, 'entry-points', g('gen_eval.py', seed, 8000 * S), res)
+        if first: eval_suite(ctx, 'size-sweep', g('gen_sizes.py', seed, 513), res)
+        eval_suite(ctx, 'targeted-functions', g('gen_targeted.py', 'c10', seed, 1500 * S) + g('gen_targeted.py', 'c14', seed, 800 * S) + g('gen_targeted.py', 'c15', seed, 800 * S), res)
+        ref_suite(ctx, 'look-ups', g('gen_ref.py', seed, 4000 * S), res)
     elif p == 'C13':
         res.rule = ('metamorphic: abstract queries rendered into 6 random spellings each (shorthand/quotes, .* vs [*], optional parentheses, number spellings, '
                     'blanks at every S); all spellings must agree on the real crate, and each agrees with the model')
@@ -782,6 +793,7 @@ def run(ctx, round_no=0):
         generic_suite(ctx, 'second-queryable', g('gen_eval.py', seed, 10000 * S), res)
         generic_suite(ctx, 'targeted-functions', g('gen_targeted.py', 'c10', seed, 3000 * S) + g('gen_targeted.py', 'c14', seed, 3000 * S) + g('gen_targeted.py', 'c04', seed, 3000 * S), res)
         generic_suite(ctx, 'singular-queries', g('gen_targeted.py', 'c15', seed, 2000 * S), res)
+        if first: generic_suite(ctx, 'size-sweep', g('gen_sizes.py', seed, 257), res)
     else:
         raise SystemExit('unknown property ' + p)
     return res
